@@ -140,6 +140,14 @@ def _pool_init(fn_module, fn_name, initargs, pin=True):
     import importlib
     if pin:
         _pin_worker()
+        try:
+            # a runaway allocation in the code under test must surface as MemoryError in the
+            # worker (which the oracles see), not as an OOM kill of the whole check
+            import resource
+            lim = int(os.environ.get("VERIF_WORKER_MEM_GB", "6")) << 30
+            resource.setrlimit(resource.RLIMIT_AS, (lim, lim))
+        except Exception:
+            pass
     mod = importlib.import_module(fn_module)
     init = getattr(mod, fn_name + "_init", None)
     if init is not None:
@@ -168,10 +176,15 @@ def pmap(fn_module, fn_name, items, initargs=(), jobs=None, chunksize=1):
     if jobs <= 1 or len(items) <= 1:
         _pool_init(fn_module, fn_name, initargs, pin=False)
         return [_pool_call(a) for a in items]
+    import concurrent.futures as cf
     ctx = multiprocessing.get_context("fork")
-    with ctx.Pool(min(jobs, len(items)), initializer=_pool_init,
-                  initargs=(fn_module, fn_name, initargs)) as pool:
-        return pool.map(_pool_call, items, chunksize)
+    # ProcessPoolExecutor (unlike multiprocessing.Pool) notices a worker that died
+    with cf.ProcessPoolExecutor(min(jobs, len(items)), mp_context=ctx, initializer=_pool_init,
+                                initargs=(fn_module, fn_name, initargs)) as pool:
+        try:
+            return list(pool.map(_pool_call, items, chunksize=chunksize))
+        except cf.process.BrokenProcessPool:
+            raise RuntimeError("HARNESS-ERROR: a worker process died (killed / crashed interpreter) while running %s.%s" % (fn_module, fn_name))
 
 
 # ---------------------------------------------------------------------------
